@@ -270,12 +270,21 @@ inline Scenario decode(Chooser& c, const Profile& pf, vf::Stats& st, bool record
     Scenario s;
     // ---- shape
     const bool v2 = vf::g_decoder >= 2; // shapes / templates added later; files written for decoder 1 keep their meaning
-    unsigned fam = v2 ? static_cast<unsigned>(c.weighted({2, 2, 3, 4, 4, static_cast<unsigned>(pf.thorough ? 2 : 1), 1, 4, 3, 1}))
+    unsigned fam = v2 ? static_cast<unsigned>(c.weighted({2, 2, 3, 4, 4, static_cast<unsigned>(pf.thorough ? 2 : 1), 1, 4, 3, 1, 3}))
                       : static_cast<unsigned>(c.weighted({2, 2, 3, 4, 4, static_cast<unsigned>(pf.thorough ? 1 : 0), 1, 4}));
     bool sparse = false;
     bool pair = false;
+    bool dense = false;      // one border that is not the last of its layer is filled up to 15 entries
+    unsigned dense_b = 0;
     unsigned n = 0;
     switch (fam) {
+        case 10: // several borders, one inner border full: a put into it splits a node that HAS a right sibling (range reads that
+                 // arrive from the right, or leave to the right, cross the split)
+            n = 24 + c.range(0, 24);
+            dense = true;
+            s.family = "full_inner_border";
+            fam = 4;
+            break;
         case 8: // two or three borders with one or two keys each below one interior: one remove collapses the interior
             n = 16 + c.range(0, 10);
             sparse = true;
@@ -314,6 +323,13 @@ inline Scenario decode(Chooser& c, const Profile& pf, vf::Stats& st, bool record
     }
     unsigned width = n > 120 ? 2 : 1;
     for (unsigned i = 0; i < n; ++i) { s.init_keys.push_back(ctr_key(s.prefix, 2 * i + 1, width)); }
+    if (dense && n >= 17) {
+        // ascending inserts left borders of 8 keys (2*i+1 for i in [8b, 8b+8)); the 7 even counters strictly inside border b fill it
+        dense_b = c.range(0, (n - 1) / 8 - 1);
+        for (unsigned j = 1; j <= 7; ++j) { s.init_keys.push_back(ctr_key(s.prefix, 16 * dense_b + 2 * j, width)); }
+    } else {
+        dense = false;
+    }
     if (sparse) {
         // ascending inserts give borders of 8 keys; keep one (sometimes two) per border so that a single remove empties and
         // unlinks a border and neighbouring unlinks / splits race with few operations
@@ -466,12 +482,18 @@ inline Scenario decode(Chooser& c, const Profile& pf, vf::Stats& st, bool record
     // ---- race templates: a reader / point op on a stored key K against a writer sequence that frees, re-uses, splits or unlinks
     // exactly the slot / border of K (K2 = absent neighbour of K in the same border)
     bool templated = false;
-    if (!churn && !pf.inserters_only_new_keys && (pf.force_templates || c.chance(pair ? 2 : 1, 3))) {
+    if (!churn && !pf.inserters_only_new_keys && (pf.force_templates || c.chance(pair || dense ? 2 : 1, 3))) {
         templated = true;
         unsigned r = n == 0 ? 0 : c.range(0, n - 1);
         if (n != 0 && c.chance(1, 3)) { r = c.flip() ? 0 : n - 1; }
+        if (dense) {
+            // K in the full border or next to it; K2 = an absent key of K's border (its put splits the full border)
+            int rr = static_cast<int>(8 * dense_b) - 2 + static_cast<int>(c.range(0, 11));
+            r = static_cast<unsigned>(rr < 0 ? 0 : (rr >= static_cast<int>(n) ? static_cast<int>(n) - 1 : rr));
+        }
         std::string K = n == 0 ? ctr_key(s.prefix, 1, width) : present_at(r);
         std::string K2 = ctr_key(s.prefix, 2 * r + (c.flip() ? 0 : 2), width);
+        if (dense) { K2 = K + "a"; }
         if (sparse && !s.pre_removed.empty()) {
             // K's neighbours in key order: the next kept key (its border is K's right sibling) or a removed key of K's own border
             K2 = c.flip() ? present_at(r + 1) : s.pre_removed[c.range(0, static_cast<std::uint32_t>(s.pre_removed.size() - 1))];
@@ -502,7 +524,7 @@ inline Scenario decode(Chooser& c, const Profile& pf, vf::Stats& st, bool record
             if (c.chance(1, 3)) { s.threads[0].push_back(point(OpK::Get, c.flip() ? K : K2)); }
         }
         // thread 1
-        switch (v2 ? c.range(0, 12) : c.range(0, 9)) {
+        switch (dense && c.flip() ? 2U : (v2 ? c.range(0, 12) : c.range(0, 9))) {
             case 10: // a writer in the neighbouring border while K's border is emptied / unlinked / the interior above collapses
                 s.threads[1].push_back(point(c.flip() ? OpK::Put : OpK::Remove, n == 0 ? K2 : present_at(r + 1)));
                 break;
@@ -595,7 +617,7 @@ inline Scenario decode(Chooser& c, const Profile& pf, vf::Stats& st, bool record
     }
     // ---- C06 template: a scan that starts in the gap behind the last key of a border (that border is recorded without contributing a
     // tuple) and continues through the next borders, against inserts of the gap key and of a new key in the following border
-    if (!templated && pf.inserters_only_new_keys && fam == 4 && !sparse && n >= 17 && width == 1 && (pf.force_templates || c.chance(1, 3))) {
+    if (!templated && pf.inserters_only_new_keys && fam == 4 && !sparse && !dense && n >= 17 && width == 1 && (pf.force_templates || c.chance(1, 3))) {
         templated = true;
         unsigned nb = (n - 1) / 8; // ascending setup inserts leave borders of 8 keys (the last one holds the rest)
         unsigned b = c.range(0, nb > 1 ? nb - 2 : 0);
@@ -1367,9 +1389,10 @@ inline vf::CaseResult run_case(const vf::RunnerArgs& args, const std::vector<std
     const bool two = args.extra == "enum2";
     for (int first = 0; first < 2 && res.pass; ++first) {
         const int other = 1 - first;
-        // enum2c multiplies the first preemption points by the conflicting accesses behind them: long operations (cursors over
-        // many keys) are sampled at every stride-th step so that one scenario stays within ~150 x 60 x 2 runs (not exhaustive then)
-        const std::uint64_t stride = args.extra == "enum2c" && solo[first] > 150 ? (solo[first] + 149) / 150 : 1;
+        // enum2 / enum2c multiply the first preemption points by the second ones behind them: long operations (scans and cursors
+        // over many keys) are sampled at every stride-th step so that one scenario stays within ~150 x 60 x 2 runs (not exhaustive then;
+        // enum1 stays exhaustive)
+        const std::uint64_t stride = (args.extra == "enum2c" || args.extra == "enum2") && solo[first] > 150 ? (solo[first] + 149) / 150 : 1;
         for (std::uint64_t p = 1; p <= solo[first] && res.pass; p += stride) {
             S.script = {{p, other}};
             S.script_first = first;
